@@ -64,7 +64,11 @@ pub(crate) async fn collect_input_partitions_concurrently(
     for part in 0..input_partitions {
         let input = input.clone();
         handles.push(tokio::spawn(async move {
+            #[cfg(qe_verif)]
+            crate::verif::sched::sched_point("collect.partition_task").await;
             let stream = input.execute(part).await?;
+            #[cfg(qe_verif)]
+            crate::verif::sched::sched_point("collect.partition_opened").await;
             let batches: Vec<RecordBatch> = stream.try_collect().await?;
             let size: usize = batches.iter().map(estimate_batch_size).sum();
             Ok::<_, QueryError>((batches, size))
@@ -868,8 +872,12 @@ impl SpillableHashAggregateExec {
             drains.push(tokio::spawn(async move {
                 let mut coalesce: Vec<(usize, Vec<RecordBatch>)> =
                     (0..txs.len()).map(|_| (0, Vec::new())).collect();
+                #[cfg(qe_verif)]
+                crate::verif::sched::sched_point("spill_agg.drain_task").await;
                 let mut stream = input.execute(p).await?;
                 while let Some(batch) = stream.try_next().await? {
+                    #[cfg(qe_verif)]
+                    crate::verif::sched::sched_point("spill_agg.drain_batch").await;
                     if abort.load(AtomicOrdering::Relaxed) {
                         break;
                     }
